@@ -10,9 +10,12 @@
 package vsched
 
 import (
+	"context"
 	"fmt"
 	"runtime"
 	"runtime/debug"
+	"runtime/pprof"
+	"strconv"
 	"sort"
 	"strings"
 	"sync"
@@ -81,24 +84,16 @@ var (
 //go:linkname runtime_getProfLabel runtime/pprof.runtime_getProfLabel
 func runtime_getProfLabel() unsafe.Pointer
 
-//go:linkname runtime_setProfLabel runtime/pprof.runtime_setProfLabel
-func runtime_setProfLabel(labels unsafe.Pointer)
-
-// Thread identity is kept in the goroutine's profiler-label slot (a pointer
-// the runtime stores per g and copies to children): it points at one of the
-// static tidBox cells. Needs -ldflags=-checklinkname=0.
-type tidBox struct {
-	magic uint64
-	tid   int
-}
-
-const boxMagic = 0x70696b656d63746d
-
-var boxes [MaxThreads]tidBox
+// Thread identity: each controlled goroutine carries a distinct pprof label set
+// (set through the public API, so the CPU profiler stays usable); the runtime keeps
+// the pointer to it in the g and we compare that pointer. Needs
+// -ldflags=-checklinkname=0 for runtime_getProfLabel.
+var labelCtx [MaxThreads]context.Context
+var labelPtr [MaxThreads]unsafe.Pointer
 
 func init() {
-	for i := range boxes {
-		boxes[i] = tidBox{magic: boxMagic, tid: i}
+	for i := range labelCtx {
+		labelCtx[i] = pprof.WithLabels(context.Background(), pprof.Labels("vtid", strconv.Itoa(i)))
 	}
 }
 
@@ -113,22 +108,25 @@ func Cur() int {
 	if p == nil {
 		return -1
 	}
-	lo, hi := uintptr(unsafe.Pointer(&boxes[0])), uintptr(unsafe.Pointer(&boxes[MaxThreads-1]))
-	if uintptr(p) < lo || uintptr(p) > hi {
-		return -1
+	n := int(nthreads)
+	for i := 0; i < n; i++ {
+		if labelPtr[i] == p {
+			if goids[i] != curEpoch || aborted[i] != 0 {
+				return -1
+			}
+			return i
+		}
 	}
-	b := (*tidBox)(p)
-	i := b.tid
-	if goids[i] != curEpoch || aborted[i] != 0 {
-		return -1
-	}
-	return i
+	return -1
 }
 
 // Epoch returns the number of the current execution (changes at every Execute).
 //
 //go:norace
 func Epoch() int64 { return curEpoch }
+
+//go:norace
+func nthreadsPlain() int32 { return nthreads }
 
 // NoteForeign is called by shims when an uncontrolled goroutine performs a
 // shimmed operation during a run.
@@ -318,7 +316,8 @@ func Go(fn func()) {
 
 //go:norace
 func setGoid(tid int) {
-	runtime_setProfLabel(unsafe.Pointer(&boxes[tid]))
+	pprof.SetGoroutineLabels(labelCtx[tid])
+	labelPtr[tid] = runtime_getProfLabel()
 	goids[tid] = curEpoch
 	aborted[tid] = 0
 }
